@@ -12,7 +12,7 @@ CHECKS = {
     "C01": dict(level="fault_enumeration", ref="DESIGN.md §4 C01",
                 text="Seeded simulated runs of the real Device in lock-step with a receiver-side reference model; the disconnect fault is enumerated "
                      "over the prefixes of every sampled history (thorough: every prefix; quick: the end and three PRNG-chosen prefixes). Evidence over "
-                     "the sampled histories/configurations, exhaustive only in the unplug position per history.",
+                     "the sampled histories/configurations, exhaustive only in the unplug position per history. A few per cent of the runs use the manager world W7 (real Manager.Run; see C19): nothing is left sounding after a device was unplugged or the devices were reloaded while a key was held.",
                 note="Trusted: the simgen rewriting (DESIGN Appendix A), synctest's fake clock, the receiver model (Note On/Off/CC123 semantics). "
                      "The defects found here (three stuck-note histories) were repaired in /repo; known_findings.jsonl holds no open finding."),
     "C02": dict(level="exploration", ref="DESIGN.md §4 C02",
@@ -55,7 +55,7 @@ CHECKS = {
     "C15": dict(level="exploration", ref="DESIGN.md §4 C15",
                 text="Seeded schedules of the real relay goroutines and the real fan-out with concurrent emitters, a numbered input stream and consumers that attach, "
                      "detach, read slowly or stop reading; oracles over the recorded history stamped with scheduler sequence numbers: exactly-once, per-emitter FIFO, "
-                     "real-time order at the port, gap-free interval per consumer with attach/detach bounds, bounded completion of DespawnOutput; a quarter of the runs use the -race binary, in which an unsynchronised access to the fan-out's outputs map (both stacks inside DynamicFanOut) is a violation.",
+                     "real-time order at the port, gap-free interval per consumer with attach/detach bounds, bounded completion of DespawnOutput; a quarter of the runs use the -race binary, in which an unsynchronised access to the fan-out's outputs map (both stacks inside DynamicFanOut) is a violation. A twentieth of the runs use the manager world W7 (real Manager.Run; see C19): device removal completes (empty device table, Run returns) with MIDI-input bursts in flight.",
                 note="Context stays alive (shutdown ordering is not part of the statement). The defect found here (a consumer that stopped reading blocks the fan-out and "
                      "DespawnOutput) was repaired in /repo; its profile is an ordinary profile now. Profiles: responsive, stalled-consumer, churn."),
     "C16": dict(level="exploration", ref="DESIGN.md §4 C16",
